@@ -380,6 +380,33 @@ def run(fx, tier):
         v.check(ok, 'R-ARITH', 'exponential_backoff::generate [%s]' % f.tu,
                 'pause range over all exponent states: %s (expected 0.5 s … 16.5 s in steps 1,2,4,8,16 s ± 0.5 s)' % (rng,),
                 key='C10:R-ARITH:backoff-range', where=f.file)
+    # ... and the pause that is armed IS that value: the timer of backoff_and_reconnect expires after generate(), unscaled
+    n_arm = 0
+    for f in fx.functions(cls='reconnect_op', name='backoff_and_reconnect'):
+        v.saw(f)
+        for b_, i_, l_, c_ in f.calls():
+            if callee_name(c_) != 'expires_after':
+                continue
+            n_arm += 1
+            a_ = origin(f, c_['args'][0]) if c_.get('args') else None
+            x_ = a_
+            for _ in range(8):
+                x_ = unwrap(x_)
+                if isinstance(x_, dict) and x_.get('k') == 'ctor' and len([y for y in x_.get('args', []) if y.get('k') != 'defarg']) == 1 \
+                        and 'duration' in (x_.get('q') or x_.get('cls') or ''):
+                    x_ = [y for y in x_['args'] if y.get('k') != 'defarg'][0]
+                elif isinstance(x_, dict) and x_.get('k') == 'local' and isinstance(x_.get('e'), dict):
+                    x_ = x_['e']
+                elif isinstance(x_, dict) and x_.get('k') == 'call' and callee_name(x_) in ('duration_cast',) and x_.get('args'):
+                    x_ = x_['args'][0]
+                else:
+                    break
+            ok_ = isinstance(x_, dict) and x_.get('k') == 'call' and callee_name(x_) == 'generate' and callee_cls(x_) == 'exponential_backoff'
+            v.check(ok_, 'R-ARITH', 'reconnect_op::backoff_and_reconnect arms the pause [%s]' % f.tu,
+                    'the connect timer expires after exactly exponential_backoff::generate() (no scaling, no constant)',
+                    key='C10:R-ARITH:backoff-armed-with-generate', where='%s:%d' % (f.path_file(), l_))
+    if n_arm == 0 and not v.violations:
+        raise AnalysisBroken('reconnect_op::backoff_and_reconnect: expires_after not found')
     # back-off only on wrap-around
     callers = [c for c in cg.callers_of(lambda c, n: c.cls == 'reconnect_op' and c.n == 'backoff_and_reconnect')]
     for caller, n, line in callers:
